@@ -135,6 +135,12 @@ def check(run, prog, tier):
     run.rule("C13-C", "Hermitian extension: index pairs sum to the extended length", minimum=4)
     run.rule("C13-D", "axis conjugation round trips (scalar algebra)", minimum=16)
     run.rule("C13-F", "a copy of an axis carries everything the axis knows about its conjugate axis", minimum=1)
+    run.rule("C13-G", "a method that moves an axis moves its array of points and its (start, step) description by the same amount "
+                      "(symbolic record start = S, data = S + k*step, statements in order): the frequency axis and the phase of a "
+                      "transform are computed from `start`, the values are laid out along `data`", minimum=2)
+    from . import axisrule
+    axisrule.check(run, prog, "C13-G", "the conjugate axis and the transforms of functions on this axis are computed from the "
+                                        "description, the data are plotted and interpolated along the points")
     rule_A(run, prog)
     pref = rule_B(run, prog)
     rule_C(run, prog)
